@@ -238,16 +238,27 @@ theorem isStorage_iff_whole (devs : List Dev) (wf : DiskWF devs) (d : Dev) (hd :
     rw [this, hp] at hd'
     simp at hd'
 
-theorem diskPlatform_render (devs : List Dev) (wf : DiskWF devs) (per : Bool) :
-    diskPlatform diskCfg (isStorageDevice diskCfg (sysBlock devs)) per (renderDiskstats devs)
+/-- a device table for the per-device form and for ANY `/sys/block`: names are single tokens, layouts are
+    the documented ones, no two lines carry the same name (nothing about `/sys/block` names) -/
+structure DiskTable (devs : List Dev) : Prop where
+  names : ∀ d ∈ devs, WFDisk d.name
+  recs : ∀ d ∈ devs, WFRec d.stat
+  nodup : (devs.map (·.name)).Nodup
+
+theorem DiskWF.table {devs : List Dev} (wf : DiskWF devs) : DiskTable devs := ⟨wf.names, wf.recs, wf.nodupNames⟩
+
+/-- whole file, any `is_storage_device`: the per-device form does not look at it; the system-wide form
+    needs it to say "whole disk" exactly for the lines that are not partitions -/
+theorem diskPlatform_render_st (devs : List Dev) (wf : DiskTable devs) (per : Bool) (st : Bytes → Bool)
+    (hst : per = false → ∀ d ∈ devs, st d.name = !d.partition) :
+    diskPlatform diskCfg st per (renderDiskstats devs)
       = .ok ((if per then devs else wholeDisks devs).map fun d => (d.name, vals9 d.stat)) := by
   unfold diskPlatform renderDiskstats
-  rw [textLines_unlines]
+  rw [show diskCfg.univNl = false from rfl, textLines_unlines_nl]
   · rw [diskFold_map diskCfg _ per devs renderDiskLine (fun d => (d.name, vals9 d.stat))
       (fun d hd => diskLine_render d (wf.names d hd) (wf.recs d hd))]
     have hskip : diskCfg.skipPartitions = true := rfl
-    have hfilter : (devs.filter fun x => !(diskCfg.skipPartitions && !per &&
-        !isStorageDevice diskCfg (sysBlock devs) x.name))
+    have hfilter : (devs.filter fun x => !(diskCfg.skipPartitions && !per && !st x.name))
         = if per then devs else wholeDisks devs := by
       cases per with
       | true => simp
@@ -256,7 +267,7 @@ theorem diskPlatform_render (devs : List Dev) (wf : DiskWF devs) (per : Bool) :
           Bool.false_eq_true, if_false, wholeDisks]
         apply List.filter_congr
         intro x hx
-        exact isStorage_iff_whole devs wf x hx
+        exact hst rfl x hx
     simp only [hfilter]
     rw [foldl_set_fresh]
     · simp
@@ -265,7 +276,7 @@ theorem diskPlatform_render (devs : List Dev) (wf : DiskWF devs) (per : Bool) :
         cases per with
         | true => simp
         | false => exact List.Sublist.map _ List.filter_sublist
-      have := List.Pairwise.sublist hsub wf.nodupNames
+      have := List.Pairwise.sublist hsub wf.nodup
       simp only [List.map_map, Function.comp_def]
       exact this
   · intro l hl
@@ -274,12 +285,42 @@ theorem diskPlatform_render (devs : List Dev) (wf : DiskWF devs) (per : Bool) :
     intro hm
     have := (wf.names d hd).noWs 10 hm
     simp [isWsT, isWs] at this
-  · intro l hl
-    obtain ⟨d, hd, rfl⟩ := List.mem_map.mp hl
-    refine not_mem_renderDiskLine 13 odd13 d ?_
-    intro hm
-    have := (wf.names d hd).noWs 13 hm
-    simp [isWsT, isWs] at this
+
+theorem diskPlatform_render (devs : List Dev) (wf : DiskWF devs) (per : Bool) :
+    diskPlatform diskCfg (isStorageDevice diskCfg (sysBlock devs)) per (renderDiskstats devs)
+      = .ok ((if per then devs else wholeDisks devs).map fun d => (d.name, vals9 d.stat)) :=
+  diskPlatform_render_st devs wf.table per _ (fun _ d hd => isStorage_iff_whole devs wf d hd)
+
+/-- `is_storage_device` over ANY listing `sb` of `/sys/block` that lists exactly the whole disks of the
+    table (under their `/` → `!` names; it may list anything else besides) -/
+theorem isStorage_of_listing (devs : List Dev) (sb : List Bytes)
+    (hl : ∀ d ∈ devs, (sysName d.name ∈ sb ↔ d.partition = false))
+    (hdot : ∀ d ∈ devs, sysName d.name ≠ [46] ∧ sysName d.name ≠ [46, 46]) (d : Dev) (hd : d ∈ devs) :
+    isStorageDevice diskCfg sb d.name = !d.partition := by
+  have hm : (d.name.map fun c => if c = diskCfg.slashFrom then diskCfg.slashTo else c)
+      = sysName d.name := rfl
+  unfold isStorageDevice
+  simp only [hm]
+  have h1 : (sysName d.name == [46]) = false := by simpa using (hdot d hd).1
+  have h2 : (sysName d.name == [46, 46]) = false := by simpa using (hdot d hd).2
+  rw [h1, h2]
+  simp only [Bool.false_or]
+  cases hp : d.partition with
+  | false =>
+    simp only [Bool.not_false, List.contains_eq_mem, decide_eq_true_eq]
+    exact (hl d hd).2 hp
+  | true =>
+    simp only [Bool.not_true, List.contains_eq_mem, decide_eq_false_iff_not]
+    intro hmem
+    have := (hl d hd).1 hmem
+    rw [hp] at this
+    exact absurd this (by decide)
+
+theorem diskWF_wholeDisks {devs : List Dev} (wf : DiskWF devs) : DiskWF (wholeDisks devs) := by
+  have hsub : (wholeDisks devs).Sublist devs := List.filter_sublist
+  refine ⟨fun d hd => wf.names d (hsub.subset hd), fun d hd => wf.recs d (hsub.subset hd), ?_,
+    fun d hd => wf.notDot d (hsub.subset hd)⟩
+  exact List.Pairwise.sublist (List.Sublist.map _ hsub) wf.nodup
 
 /-! ### sums -/
 
